@@ -170,6 +170,7 @@ class Slot:
     fallback_noop: bool = False
     keyed_by: tuple | None = None  # dict slots: the key term (field name provenance)
     alts: list = dataclasses.field(default_factory=list)
+    foreign: list = dataclasses.field(default_factory=list)  # values the constructor may also leave there that are no context lookups
 
 
 def method_return_terms(prog: Program, cls: ClassInfo, name: str) -> list[tuple]:
@@ -183,16 +184,20 @@ def slots_of(prog: Program, cls: ClassInfo) -> dict[str, Slot]:
     """attr -> Slot; when constructor paths disagree, `alts` of the slot lists every variant."""
     out: dict[str, Slot] = {}
     attrs = C.init_attrs(prog, cls)
+    foreign: dict[str, list] = {}
     for attr, vals in attrs.items():
         for v in vals:
             s = _slot_from(prog, cls, attr, v)
             if s is None:
+                foreign.setdefault(attr, []).append(v)
                 continue
             if attr in out:
                 out[attr].alts.append(s)
             else:
                 s.alts = [s]
                 out[attr] = s
+    for attr, s in out.items():
+        s.foreign = foreign.get(attr, [])
     return out
 
 
